@@ -343,6 +343,13 @@ impl<S: Syntax, D> SyntaxToken<S, D> {
         &self.parent
     }
 
+    /// Verification hook: the index of this token among the children of its parent.
+    #[cfg(cstree_verif)]
+    #[doc(hidden)]
+    pub fn verif_index(&self) -> u32 {
+        self.index
+    }
+
     /// Returns an iterator along the chain of parents of this token.
     #[inline]
     pub fn ancestors(&self) -> impl Iterator<Item = &SyntaxNode<S, D>> {
